@@ -1,5 +1,8 @@
 /* C14 harness (background channel under harness/detsched.c): 1..4 real sender threads, the library's
- * background thread and clean-up, serialised by the deterministic scheduler.
+ * background thread and clean-up, serialised by the deterministic scheduler.  The senders log through a pipeline
+ * logger (aws_logger_init_from_external: default formatter, the channel under test, recording writer), so every line is
+ * formatted by the library on the calling thread; each thread records its own id text once through the public
+ * functions (`O tid s<i> <text>`) and the writer reports the "[thread id]" field of every line it receives.
  *
  * stdin, one run per line:
  *   run <id> <senders> <lines_per_sender> <delay> <quiesce> <wfail> seed <seed> <stay_pct> <spurious_permille>
@@ -17,7 +20,7 @@
  *   run <id>
  *   E <i> t<k> <kind> <obj> <aux>      every scheduler event (thread 0 = main/clean-up, 1 = background thread, 2.. = senders)
  *   O <what>                           observables, placed after the event in whose step they happened:
- *       sent s<i> <k> | write s<i> <k> intact=<0|1> | destroy s<i> <k> | quiescent pending=<n> written=<n> |
+ *       tid s<i> <text> | sent s<i> <k> | write s<i> <k> intact=<0|1> tid=<field> | destroy s<i> <k> | quiescent pending=<n> written=<n> |
  *       cleanup-returned written=<n> destroyed=<n> pending=<n> | MONITOR <text>
  *   S <picks>                          the schedule taken (replayable)
  *   R rc=<0 ok|1 deadlock|2 livelock> live_lines=<n> live_blocks=<n> misuse=<n> diverged=<0|1> [blocked=<…>]
@@ -30,6 +33,8 @@
 #include "detsched.h"
 #include "h_common.h"
 #include <aws/common/log_channel.h>
+#include <aws/common/log_formatter.h>
+#include <aws/common/thread.h>
 #include <aws/common/log_writer.h>
 #include <aws/common/logging.h>
 #include <aws/common/string.h>
@@ -45,7 +50,7 @@ enum { TAG_IDLE = 1, TAG_SEND = 2, TAG_WRITE = 3, TAG_DESTROY = 4, TAG_CLEAN = 5
 /* ---- observables ---- */
 struct obs {
     size_t stamp; /* number of scheduler events when it happened */
-    char text[96];
+    char text[256];
 };
 static struct obs *s_obs;
 static size_t s_nobs, s_capobs;
@@ -84,9 +89,22 @@ static bool s_find_line(const void *p, int *si, int *ki) {
     return false;
 }
 
+/* the one block the default formatter allocates during a log call of sender (i,k) is that call's line */
+static __thread int t_cur_i = -1, t_cur_k = -1;
 static void *s_track_acquire(struct aws_allocator *a, size_t size) {
     (void)a;
-    return malloc(size);
+    void *p = malloc(size);
+    if (p && t_cur_i >= 0) {
+        if (s_line[t_cur_i][t_cur_k].state != L_NONE) {
+            s_observe("MONITOR second allocation during the log call of s%d %d", t_cur_i, t_cur_k);
+        } else {
+            s_line[t_cur_i][t_cur_k].ptr = p;
+            s_line[t_cur_i][t_cur_k].state = L_LIVE;
+            s_line[t_cur_i][t_cur_k].writes = 0;
+            ++s_live_lines;
+        }
+    }
+    return p;
 }
 static void s_track_release(struct aws_allocator *a, void *p) {
     (void)a;
@@ -124,8 +142,40 @@ static void s_line_text(char *buf, size_t n, int i, int k) {
     for (int j = 0; j < 5 + (i * 7 + k * 3) % 40 && l + 2 < n; ++j) {
         buf[l++] = (char)('a' + (i + k + j) % 26);
     }
-    buf[l++] = '\n';
     buf[l] = 0;
+}
+
+/* id text of the calling thread, by the public functions */
+static void s_own_tid(char *repr) {
+    HC_CHECK(aws_thread_id_t_to_string(aws_thread_current_thread_id(), repr, AWS_THREAD_ID_T_REPR_BUFSZ) == AWS_OP_SUCCESS);
+}
+
+/* "[INFO] [<timestamp>] [<tid>] [aws-c-common] - <msg>\n": returns whether everything but the two bracketed fields is
+ * exactly that, and copies the <tid> field out */
+static bool s_parse_line(const uint8_t *p, size_t len, const char *msg, char *tid, size_t tidcap) {
+    tid[0] = 0;
+    const char *head = "[INFO] [";
+    size_t hl = strlen(head);
+    if (len < hl || memcmp(p, head, hl) != 0 || memchr(p, 0, len) != NULL) {
+        return false;
+    }
+    const uint8_t *end = p + len;
+    const uint8_t *q = p + hl;
+    const uint8_t *ts_end = memchr(q, ']', (size_t)(end - q));
+    if (!ts_end || end - ts_end < 3 || memcmp(ts_end, "] [", 3) != 0) {
+        return false;
+    }
+    q = ts_end + 3;
+    const uint8_t *tid_end = memchr(q, ']', (size_t)(end - q));
+    if (!tid_end || (size_t)(tid_end - q) >= tidcap) {
+        return false;
+    }
+    memcpy(tid, q, (size_t)(tid_end - q));
+    tid[tid_end - q] = 0;
+    char rest[256];
+    snprintf(rest, sizeof(rest), "] [aws-c-common] - %s\n", msg);
+    size_t rl = strlen(rest);
+    return (size_t)(end - tid_end) == rl && memcmp(tid_end, rest, rl) == 0;
 }
 
 /* ---- recording writer ---- */
@@ -150,13 +200,13 @@ static int s_rec_write(struct aws_log_writer *writer, const struct aws_string *o
         s_observe("MONITOR write of an unknown line");
         return AWS_OP_SUCCESS;
     }
-    char expect[160];
+    char expect[160], tid[40];
     s_line_text(expect, sizeof(expect), i, k);
-    bool intact = s_line[i][k].state == L_LIVE && output->len == strlen(expect) &&
-                  memcmp(output->bytes, expect, output->len) == 0;
+    bool intact = s_parse_line(output->bytes, output->len, expect, tid, sizeof(tid)) && s_line[i][k].state == L_LIVE &&
+                  output->bytes[output->len] == 0;
     ++s_line[i][k].writes;
     ++s_written;
-    s_observe("write s%d %d intact=%d", i, k, intact);
+    s_observe("write s%d %d intact=%d tid=%s", i, k, intact, tid[0] ? tid : "?");
     if (s_cleanup_returned) {
         s_observe("MONITOR write after clean-up returned");
     }
@@ -177,11 +227,16 @@ static struct {
 } s_cfg;
 static struct aws_log_channel s_channel;
 static struct aws_log_writer s_writer;
+static struct aws_log_formatter s_formatter;
+static struct aws_logger s_logger;
 static volatile int s_stop, s_active, s_senders_done;
 static size_t s_sent;
 
 static void *s_sender(void *arg) {
     int i = (int)(intptr_t)arg;
+    char repr[AWS_THREAD_ID_T_REPR_BUFSZ];
+    s_own_tid(repr);
+    s_observe("tid s%d %s", i, repr);
     for (int k = 0; k < s_cfg.lines; ++k) {
         ds_yield(TAG_IDLE);
         if (s_stop) {
@@ -191,17 +246,14 @@ static void *s_sender(void *arg) {
         ds_yield(TAG_SEND);
         char text[160];
         s_line_text(text, sizeof(text), i, k);
-        struct aws_string *line = aws_string_new_from_c_str(&s_track, text);
-        s_line[i][k].ptr = line;
-        s_line[i][k].state = L_LIVE;
-        s_line[i][k].writes = 0;
-        ++s_live_lines;
-        int rc = (s_channel.vtable->send)(&s_channel, line);
+        t_cur_i = i;
+        t_cur_k = k;
+        int rc = s_logger.vtable->log(&s_logger, AWS_LL_INFO, AWS_LS_COMMON_GENERAL, "%s", text);
+        t_cur_i = t_cur_k = -1;
         if (rc != AWS_OP_SUCCESS) {
-            /* "failure to send implies failure to transfer ownership": the caller releases the line,
-             * exactly as s_aws_logger_pipeline_log does */
+            /* the channel refused the line: s_aws_logger_pipeline_log has released it ("failure to send implies
+             * failure to transfer ownership") */
             s_observe("sendfail s%d %d", i, k);
-            aws_string_destroy(line);
         }
         ++s_sent;
         s_observe("sent s%d %d", i, k);
@@ -221,6 +273,11 @@ static void s_main(void *arg) {
     } else {
         HC_CHECK(aws_log_channel_init_background(&s_channel, hc_allocator(), &s_writer) == AWS_OP_SUCCESS);
     }
+    struct aws_log_formatter_standard_options fo = {.date_format = AWS_DATE_FORMAT_ISO_8601};
+    HC_CHECK(aws_log_formatter_init_default(&s_formatter, &s_track, &fo) == AWS_OP_SUCCESS);
+    HC_CHECK(
+        aws_logger_init_from_external(&s_logger, hc_allocator(), &s_formatter, &s_channel, &s_writer, AWS_LL_TRACE) ==
+        AWS_OP_SUCCESS);
     pthread_t th[MAX_SENDERS];
     for (int i = 0; i < s_cfg.senders; ++i) {
         HC_CHECK(pthread_create(&th[i], NULL, s_sender, (void *)(intptr_t)i) == 0);
@@ -245,6 +302,8 @@ static void s_main(void *arg) {
     ds_yield(TAG_CLEAN);
     aws_log_channel_clean_up(&s_channel);
     s_cleanup_returned = true;
+    aws_logger_clean_up(&s_logger);
+    aws_log_formatter_clean_up(&s_formatter);
     size_t destroyed = 0;
     for (int i = 0; i < MAX_SENDERS; ++i) {
         for (int k = 0; k < MAX_LINES; ++k) {
@@ -259,10 +318,6 @@ static void s_main(void *arg) {
 }
 
 /* ---- the no-alloc logger driven by several threads ---- */
-extern AWS_THREAD_LOCAL struct {
-    bool is_valid;
-    char repr[AWS_THREAD_ID_T_REPR_BUFSZ];
-} tl_logging_thread_id;
 static struct aws_logger s_na_logger;
 static FILE *s_na_file;
 
@@ -277,6 +332,9 @@ static void s_na_text(char *buf, size_t n, int i, int k) {
 
 static void *s_na_thread(void *arg) {
     int i = (int)(intptr_t)arg;
+    char repr[AWS_THREAD_ID_T_REPR_BUFSZ];
+    s_own_tid(repr);
+    s_observe("tid t%d %s", i, repr);
     for (int k = 0; k < s_cfg.lines; ++k) {
         ds_yield(TAG_IDLE);
         char text[160];
@@ -287,10 +345,10 @@ static void *s_na_thread(void *arg) {
             s_observe("filtered t%d %d", i, k);
         } else if (k % 3 == 1) {
             AWS_LOGF_ERROR(AWS_LS_COMMON_GENERAL, "%s", text);
-            s_observe("logged t%d %d ERROR tid=%s", i, k, tl_logging_thread_id.is_valid ? tl_logging_thread_id.repr : "?");
+            s_observe("logged t%d %d ERROR", i, k);
         } else {
             AWS_LOGF_INFO(AWS_LS_COMMON_GENERAL, "%s", text);
-            s_observe("logged t%d %d INFO tid=%s", i, k, tl_logging_thread_id.is_valid ? tl_logging_thread_id.repr : "?");
+            s_observe("logged t%d %d INFO", i, k);
         }
     }
     return NULL;
